@@ -28,7 +28,8 @@ type Reject int
 
 const (
 	RejNone           Reject = iota
-	RejSyntax                // malformed command line / unknown option (exit 2)
+	RejSyntax                // malformed command line / unknown option (exit 2): the model cannot parse it
+	RejBadValue              // a value the real tool refuses: non-IPv4 address, non-numeric port, >15 multiport slots, comment >255
 	RejNoChain               // the chain operated on does not exist ("No chain/target/match by that name")
 	RejNoTarget              // the jump target chain does not exist
 	RejNoSet                 // --match-set names a set that does not exist
@@ -48,7 +49,7 @@ const (
 )
 
 func (r Reject) String() string {
-	return [...]string{"", "syntax", "no-chain", "no-target", "no-set", "chain-exists", "too-many-links", "not-empty", "bad-rule",
+	return [...]string{"", "syntax", "bad-value", "no-chain", "no-target", "no-set", "chain-exists", "too-many-links", "not-empty", "bad-rule",
 		"builtin", "set-missing", "set-exists", "set-in-use", "elem-exists", "elem-missing", "bad-elem", "no-table", "fault"}[r]
 }
 
@@ -387,6 +388,9 @@ func (k *Kernel) apply(t *Table, c *cmd) (string, *fail) {
 			var err error
 			r, err = parseRule(c.spec)
 			if err != nil {
+				if _, ok := err.(*valueErr); ok {
+					return "", &fail{rej: RejBadValue, exit: 2, msg: "iptables v1.4.21: " + err.Error()}
+				}
 				return "", &fail{rej: RejSyntax, exit: 2, msg: "iptables v1.4.21: " + err.Error()}
 			}
 			// sets are looked up while the command line is parsed, before the chain is looked at
